@@ -12,6 +12,7 @@
 #include <unistd.h>
 
 extern "C" int __real_unlink(const char *);
+#include <ctime>
 
 namespace vsim {
 
@@ -246,10 +247,33 @@ void Net::pumpPeerRead(Conn *c)
     if (progress && c->proc) runProc(c->proc);
 }
 
+// replaces @NOW@, @NOW+123@, @NOW-45@ by the IMF-fixdate of the simulated wall clock (+- seconds) and @VAR:name@ by a scenario variable
+static Bytes substitute(const Bytes &in)
+{
+    Bytes out; size_t pos = 0;
+    for (;;) {
+        size_t a = in.find('@', pos);
+        if (a == std::string::npos) { out.append(in, pos, std::string::npos); break; }
+        size_t b = in.find('@', a + 1);
+        if (b == std::string::npos || b - a > 64) { out.append(in, pos, a + 1 - pos); pos = a + 1; continue; }
+        std::string tok = in.substr(a + 1, b - a - 1);
+        if (tok.compare(0, 3, "NOW") == 0) {
+            long off = tok.size() > 3 ? atol(tok.c_str() + 3) : 0;
+            time_t t = (time_t)(wallUs() / 1000000) + off; struct tm tmv; gmtime_r(&t, &tmv);
+            char buf[64]; strftime(buf, sizeof(buf), "%a, %d %b %Y %H:%M:%S GMT", &tmv);
+            out.append(in, pos, a - pos); out += buf; pos = b + 1;
+        } else if (tok.compare(0, 4, "VAR:") == 0) {
+            out.append(in, pos, a - pos); out += getVar(tok.substr(4)); pos = b + 1;
+        } else { out.append(in, pos, a + 1 - pos); pos = a + 1; }
+    }
+    return out;
+}
+
 void Net::peerSend(Conn *c, const Step &st)
 {
     if (c->poutOff == c->pout.size()) { c->pout.clear(); c->poutOff = 0; }
     c->segBase = c->pout.size();
+    if (st.subst) c->pout += substitute(st.data); else
     c->pout += st.data;
     c->seg = st.seg; c->segMax = st.segMax; c->segAt = st.segAt; c->paceLo = st.paceLo; c->paceHi = st.paceHi;
     pumpPeerSend(c);
@@ -626,6 +650,7 @@ bool Net::stepExpect(Proc *p, const Step &st, bool &failed)
 static bool ruleMatches(const Rule &r, const Bytes &head)
 {
     if (r.maxUses >= 0 && r.uses >= r.maxUses) return false;
+    for (auto &w : r.when) if (getVar(w.first) != w.second) return false;
     for (auto &h : r.has) if (head.find(h) == std::string::npos) return false;
     for (auto &h : r.nothas) if (head.find(h) != std::string::npos) return false;
     return true;
@@ -727,6 +752,7 @@ void Net::runProc(Proc *p)
         case ST_READRESUME: if (p->conn) { p->conn->readStopped = false; ++p->pc; pumpPeerRead(p->conn); continue; } break;
         case ST_NEXT: if (p->phase == Proc::INRULE || p->phase == Proc::ONACCEPT) { p->phase = Proc::WAITREQ; continue; } break;
         case ST_SIGNAL: hist("LIFE\tsignal\t%d", st.sig); raise(st.sig); break;
+        case ST_SET: { size_t eq = st.flag.find('='); setVar(st.flag.substr(0, eq), st.flag.substr(eq + 1)); break; }
         }
         if (fail) {
             hist("PFAIL\t%s\t%d\t%d\t%s", p->name.c_str(), p->conn ? p->conn->id : 0, st.line, why);
